@@ -35,8 +35,8 @@ _DEFAULTS = dict(Mode="fixed", TEnds={12}, MaxInterior=3, Dts={1, 2, 3, 4, 5}, D
                  Extras={False}, RestartMode="none", PairMode=False, MaxTrials=0, KeepHist=True, Emit=False,
                  Bugs={"none"})
 
-FIXED_INVS = ("TypeOK", "GridSteps", "OutputForm", "OutputFormIsGrid", "ChunkEq", "Tiling", "AllEmitted")
-FIXED_PROPS = ("TilingStep",)
+FIXED_INVS = ("TypeOK", "GridSteps", "OutputForm", "OutputFormIsGrid", "ChunkEq", "Tiling", "AllEmitted", "GridRefinementInit")
+FIXED_PROPS = ("TilingStep", "GridRefinement")
 ADAPT_INVS = ("TypeOK", "Tiling", "MinStep", "MinStepSize", "AllEmitted", "OutputFormA", "AcceptedOnly")
 ADAPT_PROPS = ("AcceptRule", "RetrySmaller", "HalfStepValue", "RejectKeepsState", "TilingStep")
 
